@@ -812,14 +812,28 @@ ldb_write_level0_table(ldb_t *db, ldb_memtable_t *mem,
   return rc;
 }
 
+typedef struct ldb_logreporter_s {
+  ldb_reporter_t base; /* Must be the first member. */
+  int *io_status; /* Never NULL. */
+} ldb_logreporter_t;
+
 static void
 report_corruption(ldb_reporter_t *report, size_t bytes, int status) {
+  ldb_logreporter_t *lr = (ldb_logreporter_t *)report;
+  int io_error = (status != LDB_CORRUPTION);
+
   ldb_log(report->info_log, "%s%s: dropping %d bytes; %s",
-          report->status == NULL ? "(ignoring error) " : "",
+          (report->status == NULL && !io_error) ? "(ignoring error) " : "",
           report->fname, (int)bytes, ldb_strerror(status));
 
   if (report->status != NULL && *report->status == LDB_OK)
     *report->status = status;
+
+  /* A failed read is not damaged data: the bytes may be fine, so the
+     rest of the log must not be dropped just because paranoid_checks
+     is off. */
+  if (io_error && *lr->io_status == LDB_OK)
+    *lr->io_status = status;
 }
 
 static int
@@ -829,7 +843,8 @@ ldb_recover_log_file(ldb_t *db, uint64_t log_number,
                                 ldb_edit_t *edit,
                                 ldb_seqnum_t *max_sequence) {
   char fname[LDB_PATH_MAX];
-  ldb_reporter_t reporter;
+  ldb_logreporter_t logreporter;
+  ldb_reporter_t *reporter = &logreporter.base;
   ldb_rfile_t *file;
   int rc = LDB_OK;
   ldb_buffer_t buf;
@@ -855,16 +870,17 @@ ldb_recover_log_file(ldb_t *db, uint64_t log_number,
     return rc;
 
   /* Create the log reader. */
-  reporter.fname = fname;
-  reporter.status = (db->options.paranoid_checks ? &rc : NULL);
-  reporter.info_log = db->options.info_log;
-  reporter.corruption = report_corruption;
+  reporter->fname = fname;
+  reporter->status = (db->options.paranoid_checks ? &rc : NULL);
+  reporter->info_log = db->options.info_log;
+  reporter->corruption = report_corruption;
+  logreporter.io_status = &rc;
 
   /* We intentionally make the log reader do checksumming even if
      paranoid_checks==0 so that corruptions cause entire commits
      to be skipped instead of propagating bad information (like
      overly large sequence numbers). */
-  ldb_reader_init(&reader, file, &reporter, 1, 0);
+  ldb_reader_init(&reader, file, reporter, 1, 0);
   ldb_batch_init(&batch);
   ldb_buffer_init(&buf);
 
@@ -880,7 +896,7 @@ ldb_recover_log_file(ldb_t *db, uint64_t log_number,
 
     if (record.size < 12) {
       /* "log record too small" */
-      reporter.corruption(&reporter, record.size, LDB_CORRUPTION);
+      reporter->corruption(reporter, record.size, LDB_CORRUPTION);
       continue;
     }
 
